@@ -122,10 +122,14 @@ class C15(Prop):
     theorems = ["EaselModel.Props.C15." + t for t in (
         "compact_is_filter", "columnSubset_is_filter", "columnCompact_is_filter", "columnSubset_nucleic_partial",
         "columnSubset_wellformed", "columnSubset_dealign",
-        "sequenceSubset_keeps_rows", "sequenceSubset_fails_iff_empty", "sequenceSubset_wellformed_partial", "clone_is_identity",
+        "minimGaps_text_removes_exactly", "minimGaps_digital_removes_exactly", "minimGaps_text_is_filter",
+        "minimGaps_digital_is_filter", "noGaps_text_keeps_exactly", "noGaps_text_is_filter",
+        "sequenceSubset_keeps_rows", "sequenceSubset_fails_iff_empty", "sequenceSubset_wellformed",
+        "sequenceSubset_attached", "sequenceSubset_keeps_markup", "clone_is_identity",
         "digital_text_digital", "generated_tables_consistent", "text_digital_text",
         "canonical_symbol_amino", "canonical_symbol_rna", "canonical_symbol_dna",
-        "reverseComplement_twice", "generated_complement_involutive", "wussReverse_involutive")]
+        "reverseComplement_twice", "generated_complement_involutive",
+        "wuss2ct_involution", "wuss2ct_pairs_matched", "wussReverse_involutive")]
     claimed = True
     technique = ("Lean 4 proof about an executable hand model of esl_msa.c / esl_wuss.c (in-place compaction loop = filter-by-mask on every aligned field, "
                  "well-formedness invariants, mode-conversion and reverse-complement identities over alphabet tables regenerated from the tree, pair-table invariants) "
